@@ -4,17 +4,19 @@ from __future__ import annotations
 import json
 
 ID = "C13"
-FUNCTIONS = [("sleap_nn.data.providers", "VideoReader.run"), ("sleap_nn.data.providers", "LabelsReader.run"), ("sleap_nn.inference.predictors", "Predictor._predict_generator"),
+FUNCTIONS = [("sleap_nn.data.providers", "VideoReader.__init__"), ("sleap_nn.data.providers", "VideoReader.total_len"), ("sleap_nn.data.providers", "VideoReader.run"), ("sleap_nn.data.providers", "LabelsReader.run"), ("sleap_nn.inference.predictors", "Predictor._predict_generator"),
              ("sleap_nn.data.normalization", "apply_normalization"), ("sleap_nn.data.resizing", "apply_sizematcher")]
 EXPLANATION = ("The reader thread body (VideoReader.run / LabelsReader.run) and the consumer loop (Predictor._predict_generator) are regenerated as coroutines from "
                "their current source on every run; a deterministic scheduler interleaves them at every queue put/get, start/join and yield over a bounded-FIFO "
                "model of queue.Queue. CrossHair makes the range (start,end), the index of the failing read and the schedule (one boolean per point where both "
                "sides are enabled) symbolic and must confirm over all paths: delivered items = frames start..min(fail,end)-1 once each in order with their own "
-               "index/size/content, then exactly one end marker; the records come out in that order; both sides terminate (no hang).")
+               "index/size/content, then exactly one end marker; the records come out in that order; both sides terminate (no hang). The requested range reaches the "
+               "thread body through the real VideoReader.__init__ on a video one frame longer than the requested end; a further contract confirms that the constructor "
+               "resolves every given / omitted (start,end) on videos of 0..6 frames to exactly [start or 0, end or n).")
 ASSUMPTIONS = ["queue.Queue is a bounded FIFO whose put blocks when full and get blocks when empty; preemption inside Queue methods is not modelled (CPython's lock is trusted)",
                "thread switches happen only at queue operations, start/join and generator yields (the only points where the two bodies interact)",
                "video decoding is a stub returning a 4x4 frame whose pixels encode the index, or raising at the failing index"]
-STUBS = ["reader.video / reader.labels -> fake sources (index-coded 4x4 frames, failure injected at a symbolic index)", "frame_buffer -> bounded FIFO model", "inference_model -> identity on (frame_idx, first pixel, orig_size)", "loguru -> no-op"]
+STUBS = ["reader.video / reader.labels -> fake sources (index-coded 4x4 frames, failure injected at a symbolic index)", "frame_buffer -> bounded FIFO model", "inference_model -> identity on (frame_idx, first pixel, orig_size)", "loguru -> no-op", "threading.Thread.__init__ -> no-op while the real VideoReader.__init__ runs (the thread object is never started)"]
 OUTSIDE = ["ranges longer than 3 (quick) / 4 (thorough) frames, queues > 2 (3), batches > 2 (3), more than 6 (10) contested scheduling points", "real video backends", "instances_key=True"]
 REQUIRED_WITNESSES = ["reachability-twin-refuted"]
 BUDGET_S = {"quick": 900, "thorough": 7200}
@@ -33,6 +35,7 @@ def configs(tier, seed):
         for Q in rng_:
             for B in rng_:
                 out.append(dict(kind=kind, Q=Q, B=B, tag=tag, timeout=900 if tier == "quick" else 3000))
+    out.append(dict(kind="range", timeout=300))
     out.append(dict(kind="twin"))
     return out
 
@@ -58,6 +61,27 @@ def run_config(cfg):
         rep.sample({"concrete_run": [None if d["frame_idx"] is None else int(d["frame_idx"]) for d in delivered]})
         return rep.finish()
     from props import c13_contracts as C
+    if cfg["kind"] == "range":
+        r = chrunner.run_contract(C.video_range_resolution, per_condition_timeout=cfg["timeout"], per_path_timeout=60)
+        rep.paths = rep.nontrivial_paths = 1
+        oname = "CH-video-reader-resolves-the-requested-range"
+        if r["state"] == "CONFIRMED":
+            rep.record(oname, "unsat", r["solver_s"])
+        elif r["state"] == "REFUTED":
+            rep.record(oname, "sat", r["solver_s"])
+            ce = r.get("counterexample") or {}
+            kw = ce.get("kwargs") or {}
+            try:
+                why = S.range_resolution(kw["n"], kw["start"], kw["end"], kw["start_none"], kw["end_none"])[1]
+            except Exception as e:  # noqa
+                why = f"unparsed ({type(e).__name__})"
+            rep.violation(oname, "video:range", f"{why}; CrossHair: {r['message'][:200]}", {"call": ce, "kind": "range"})
+        else:
+            rep.record(oname, "unknown", r["solver_s"])
+            rep.inconclusive_item(oname, f"CrossHair state {r['state']}: {json.dumps(r['messages'])[:300]}")
+        rep.witness("reachability-twin-refuted", True)
+        rep.sample({"contract": "video_range_resolution", "crosshair_state": r["state"], "queries": r["queries"], "seconds": r["seconds"]})
+        return rep.finish(stats={"queries": r["queries"], "solver_s": r["solver_s"]})
     name = f"frames_once_in_order_then_one_marker_{cfg['kind']}_Q{cfg['Q']}_B{cfg['B']}_{cfg['tag']}"
     fn = getattr(C, name)
     r = chrunner.run_contract(fn, per_condition_timeout=cfg["timeout"], per_path_timeout=120)
@@ -93,6 +117,9 @@ def replay(cfg, inputs, obligation):
     kw = (inputs.get("call") or {}).get("kwargs")
     if kw is None:
         return False, "counterexample not parsable"
+    if inputs["kind"] == "range":
+        ok, why = S.range_resolution(kw["n"], kw["start"], kw["end"], kw["start_none"], kw["end_none"])
+        return (not ok), why
     ok, why = S.verdict(inputs["kind"], kw["start"], kw["end"], inputs["Q"], inputs["B"], kw["fail"], kw["sched"])
     if ok:
         return False, "scheduler replay: run is correct"
@@ -110,7 +137,7 @@ def _threaded(kind, start, end, Q, B, fail):
     from props import c13_sim as S
     fb = queue.Queue(maxsize=Q)
     if kind == "video":
-        r = prov.VideoReader(S.FakeVideo(end, fail), fb, start, end)
+        r = prov.VideoReader(S.FakeVideo(end + S.EXTRA_FRAMES, fail), fb, start, end)
     else:
         r = prov.LabelsReader.__new__(prov.LabelsReader)
         threading.Thread.__init__(r)
